@@ -12,7 +12,7 @@ import (
 func init() {
 	register("C20", PropCheck{
 		Title:      "Session end restarts cleanly; termination stays blocked",
-		Explain:    "Structural clauses: (R1) the dead-code check sets TERMINATE exactly on the 'not reading input' (READIN unset) edge, and Vm.Run consults it when code runs out; (R2) the engine marks a graceful end (exiting=true) only behind 'no code left' AND the DIRTY flag test, Flush runs the engine reset on every non-error path on which exiting may be set, and the reset unwinds State and cache in pairs (Up/Pop), restarts the state and clears TERMINATE and DIRTY on every success path; (R3) when no code is pending, init injects MOVE <configured root> as the code to run; (R4) blocked stays blocked: in exec the remaining code is only recorded behind the TERMINATE-unset edge after the run (a terminated run is never classified as a graceful end), Run dispatches nothing without passing the TERMINATE gate, and constant resets of TERMINATE exist only behind Run's own test and in the session-restart path, and no code outside package state stores to the flag bit field (a migration or copy of the field can drop TERMINATE; added after seeded change C20-H); (R5) the reset path writes flag bytes only as 'byte 0 := 0' or through the constant resets, so client flags (8 and up) are kept; (R6) Finish stores what the request left: every return of Finish passes Persister.Save, the initd==false edge or the no-persister edge - no other condition may skip the save, in particular not one that holds exactly after the unwind of a graceful end (added after seeded change C20-F); (R7) the destructive read of the last loaded value (Cache.Last) is not called - directly or through calls - on a path that leads to the call whose result the engine keeps as the exit value, so a debug hook or log line cannot empty the final page (added after seeded change C20-G). (R8) = C17 R5: every Save that Finish performs lies behind the initd==true edge, so what the pre-VM hook's clean-up did to a blocked session's flags is never stored (added after seeded change C20-I). (R9) = C17 R8 (Loop finishes the engine on every exit); (R10) every path to the INCMP handler's move passes the constant ResetFlag(FLAG_READIN) (added after seeded changes C20-K and C20-L). (R11) = C06 R12: the pending code is consumed when fetched. (R12) once the pre-VM hook's deferred ResetFlag(TERMINATE) is registered, every place where true becomes the hook's first result lies behind the TERMINATE-unset edge (added after seeded change C20-N). (R13) every return of Vm.Render, error returns included, passes ResetFlag(DIRTY) or the DIRTY-unset edge (added after seeded change C20-M).",
+		Explain:    "Structural clauses: (R1) the dead-code check sets TERMINATE exactly on the 'not reading input' (READIN unset) edge, and Vm.Run consults it when code runs out; (R2) the engine marks a graceful end (exiting=true) only behind 'no code left' AND the DIRTY flag test, Flush runs the engine reset on every non-error path on which exiting may be set, and the reset unwinds State and cache in pairs (Up/Pop), restarts the state and clears TERMINATE and DIRTY on every success path; (R3) when no code is pending, init injects MOVE <configured root> as the code to run; (R4) blocked stays blocked: in exec the remaining code is only recorded behind the TERMINATE-unset edge after the run (a terminated run is never classified as a graceful end), Run dispatches nothing without passing the TERMINATE gate, and constant resets of TERMINATE exist only behind Run's own test and in the session-restart path, and no code outside package state stores to the flag bit field (a migration or copy of the field can drop TERMINATE; added after seeded change C20-H); (R5) the reset path writes flag bytes only as 'byte 0 := 0' or through the constant resets, so client flags (8 and up) are kept; (R6) Finish stores what the request left: every return of Finish passes Persister.Save, the initd==false edge or the no-persister edge - no other condition may skip the save, in particular not one that holds exactly after the unwind of a graceful end (added after seeded change C20-F); (R7) the destructive read of the last loaded value (Cache.Last) is not called - directly or through calls - on a path that leads to the call whose result the engine keeps as the exit value, so a debug hook or log line cannot empty the final page (added after seeded change C20-G). (R8) = C17 R5: every Save that Finish performs lies behind the initd==true edge, so what the pre-VM hook's clean-up did to a blocked session's flags is never stored (added after seeded change C20-I). (R9) = C17 R8 (Loop finishes the engine on every exit); (R10) every path to the INCMP handler's move passes the constant ResetFlag(FLAG_READIN) (added after seeded changes C20-K and C20-L). (R11) = C06 R12: the pending code is consumed when fetched. (R12) once the pre-VM hook's deferred ResetFlag(TERMINATE) is registered, every place where true becomes the hook's first result lies behind the TERMINATE-unset edge (added after seeded change C20-N). (R13) every return of Vm.Render, error returns included, passes ResetFlag(DIRTY) or the DIRTY-unset edge (added after seeded change C20-M). (R14) = C03 R10: State.Restart only from the engine's session restart (added after seeded change C20-O). (R15) the flags a successful external call asks for are applied on every path (added after seeded change C20-P, where a refused cache write returned before the flag loops).",
 		NotDecided: "what later requests output over histories and back ends; that the restart point equals the application's intended entry node (it is the configured root).",
 		Run:        runC20,
 	})
@@ -25,6 +25,8 @@ func runC20(w *core.World, r *core.Report) {
 	r.Rule("R4", "blocked stays blocked: TERMINATE test between run and setCode; gate in Run; who may clear TERMINATE")
 	r.Rule("R6", "Finish saves whenever the engine was initialised and has a persister: every success return passes Persister.Save, the initd==false edge or the no-persister edge")
 	r.Rule("R5", "the reset path keeps client flags")
+	r.Rule("R15", "the flags a successful external call asks for are applied on every path (a refused cache write does not drop a requested TERMINATE)")
+	r.Rule("R14", "State.Restart, which re-initialises the reserved flag byte (TERMINATE included), is called only by the engine's session restart (C03 R10)")
 	r.Rule("R13", "Vm.Render consumes DIRTY on every path, failed renders included (a blocked session stays silent)")
 	r.Rule("R12", "the pre-VM hook answers continue only where TERMINATE was tested unset (its deferred reset must not unblock a terminated session)")
 	r.Rule("R11", "the pending code is consumed when the engine fetches it (C06 R12): a terminated or failed request does not save the lines it was given")
@@ -45,6 +47,8 @@ func runC20(w *core.World, r *core.Report) {
 	checkMatchClearsReadin(w, r, "R10")
 	checkPendingCodeConsumed(w, r, "R11")
 	checkRenderConsumesDirty(w, r, "R13", fDirty)
+	checkRestartCallers(w, r, "R14")
+	checkResultFlagsAlwaysApplied(w, r, "R15")
 	checkHookContinuesOnlyUnblocked(w, r, "R12", fTerm)
 	run := anchor(w, r, "vm", "(*Vm).Run")
 	roles := resolveEngineRoles(w)
